@@ -72,6 +72,10 @@ def generate(rng, tier):
             strat = ("lin", ext)
         elif kind in ("nak", "par"):
             strat = ("spl", ext, "nak")
+            if rng.random() < 0.5:
+                # the same condition spelled per lane: the named NotAKnot row, or the explicit pair Mixed{NotAKnot, NotAKnot} (seed C16-r7m1:
+                # the 3-point parabola case keyed on the named variant only; the general rows are singular for three points)
+                strat = ("spl", ext, ("ind", [1] + trailing, [rng.choice([("nak", "nak"), ("nak", "nak"), "nak"]) for _ in range(L)]))
         elif kind == "nat":
             strat = ("spl", ext, "nat")
             if rng.random() < 0.5:
